@@ -75,6 +75,7 @@ type Finding struct {
 	Class      string `json:"class,omitempty"` // spec expression over the function's parameters delimiting the known failing inputs
 	Commit     string `json:"commit,omitempty"`
 	Confirmed  string `json:"confirmed,omitempty"`
+	Sites      []string `json:"sites,omitempty"` // effect findings: every witness item must contain one of these
 }
 
 func loadFindings(verif string) []Finding {
@@ -108,6 +109,9 @@ func runCheck(repo, verif, prop, tier string, update bool) int {
 		return 2
 	}
 	pats := patternsFor(all, prop)
+	if effectProps[prop] {
+		pats = []string{"github.com/arnodel/golua/..."}
+	}
 	if len(pats) == 0 {
 		fmt.Fprintln(os.Stderr, "govc: no contracts for property", prop)
 		return 2
@@ -123,7 +127,7 @@ func runCheck(repo, verif, prop, tier string, update bool) int {
 	loadS := time.Since(start).Seconds()
 	var cts []*Contract
 	for _, c := range eng.all {
-		if c.hasProp(prop) && !c.Trusted {
+		if c.hasProp(prop) && !c.Trusted && !c.EffOnly {
 			cts = append(cts, c)
 		}
 	}
@@ -209,6 +213,7 @@ func runCheck(repo, verif, prop, tier string, update bool) int {
 	// 3. classify
 	exit := 0
 	var violations, known []string
+	var effReports []*OblReport
 	discharged, nclaimed := 0, 0
 	var undecided []map[string]string
 	perSolver := map[string]int{}
@@ -326,7 +331,42 @@ func runCheck(repo, verif, prop, tier string, update bool) int {
 		violations = append(violations, fmt.Sprintf("VIOLATION property=%s replay=%s obligation=%s result=%s%s", prop, path, r.Name, r.Status, suffix))
 		exit = 1
 	}
-	if len(reports) == 0 {
+	// effect / frame obligations (goeff)
+	var effs []*EffObl
+	if effectProps[prop] {
+		effs = runEffects(eng, prop)
+		for _, eo := range effs {
+			name := eo.Name
+			r := &OblReport{Name: name, Func: name, Kind: eo.Kind, Desc: eo.Desc, Solver: "frame", Pos: eo.Pos, Claimed: true}
+			if eo.OK {
+				r.Status = "unsat"
+				if eo.Kind == "cover" {
+					r.Status = "sat"
+				}
+				perSolver["frame"]++
+				nclaimed++
+				discharged++
+				effReports = append(effReports, r)
+				continue
+			}
+			r.Status = "sat"
+			if eo.Kind == "cover" {
+				r.Status = "unsat"
+			}
+			effReports = append(effReports, r)
+			if fd := findingFor(name); fd != nil && witnessWithin(eo.Witness, fd.Sites) {
+				r.Known = true
+				known = append(known, fmt.Sprintf("KNOWN-FINDING: property=%s %s: %s", prop, name, fd.What))
+				continue
+			}
+			nclaimed++
+			path := writeReplay(verif, prop, name, map[string]interface{}{"obligation": name, "kind": eo.Kind, "goal": eo.Desc, "result": "violated", "solver": "frame (effect checker over go/ssa)", "position": eo.Pos, "witness": eo.Witness,
+				"solver_output": "effect obligation violated: " + eo.Witness})
+			violations = append(violations, fmt.Sprintf("VIOLATION property=%s replay=%s obligation=%s (%s) no-failing-input-found", prop, path, name, truncate(eo.Witness, 300)))
+			exit = 1
+		}
+	}
+	if len(reports)+len(effReports) == 0 {
 		fmt.Printf("VIOLATION property=%s replay=%s no obligations generated no-failing-input-found\n", prop, writeReplay(verif, prop, "no-obligations", map[string]interface{}{"error": "zero obligations"}))
 		exit = 1
 	}
@@ -356,6 +396,7 @@ func runCheck(repo, verif, prop, tier string, update bool) int {
 		os.WriteFile(filepath.Join(verif, "claimed", prop+".txt"), []byte("# obligations claimed for "+prop+" (generated with --update-claimed on the reference tree, then reviewed)\n"+strings.Join(updLines, "\n")+"\n"), 0o644)
 	}
 	wall := time.Since(start).Seconds()
+	reports = append(reports, effReports...)
 	writeEvidence(verif, prop, tier, seed, eng, fvs, reports, nclaimed, discharged, undecided, known, len(violations), perSolver, solverMs, wall, loadS, genS)
 	fmt.Printf("govc: property %s tier %s: %d obligations generated, %d claimed, %d discharged, %d undecided, %d known findings, %d violations (%.1fs)\n",
 		prop, tier, len(reports), nclaimed, discharged, len(undecided), len(known), len(violations), wall)
@@ -532,4 +573,50 @@ func writeEvidence(verif, prop, tier string, seed int, eng *Engine, fvs []*FuncV
 	os.MkdirAll(filepath.Join(verif, "evidence"), 0o755)
 	data, _ := json.MarshalIndent(ev, "", " ")
 	os.WriteFile(filepath.Join(verif, "evidence", prop+".json"), data, 0o644)
+}
+
+var effectProps = map[string]bool{"C08": true, "C20": true, "C05": true}
+
+func libScope(eng *Engine) func(string) bool {
+	return func(p string) bool {
+		rel := strings.TrimPrefix(p, eng.modPath)
+		switch {
+		case rel == "", strings.HasPrefix(rel, "/cmd"), strings.HasPrefix(rel, "/examples"), strings.HasPrefix(rel, "/luatesting"):
+			return false // command-line programs, examples and test helpers are not part of an embedded runtime
+		}
+		return true
+	}
+}
+
+func runEffects(eng *Engine, prop string) []*EffObl {
+	g := newEffGraph(eng)
+	switch prop {
+	case "C08":
+		return g.ioSafeObligations()
+	case "C20":
+		return g.globalWriteObligations(libScope(eng))
+	case "C05":
+		return append(g.recoverObligations(libScope(eng)), g.deadContextObligations()...)
+	}
+	return nil
+}
+
+// witnessWithin: every item of an effect witness is one of the recorded sites
+// of the known finding (a new write in the same function is a new violation).
+func witnessWithin(witness string, sites []string) bool {
+	if len(sites) == 0 {
+		return true
+	}
+	for _, item := range strings.Split(witness, "; ") {
+		ok := false
+		for _, s := range sites {
+			if strings.Contains(item, s) {
+				ok = true
+			}
+		}
+		if !ok {
+			return false
+		}
+	}
+	return true
 }
